@@ -126,11 +126,12 @@ T(RD + "_sdi_bits", {
     "last_track_number_in_last_session_msb": (11, 7, 0), "disc_identification": W(12, 15),
     "last_session_lead_in_start_address": BLOB(16, 19), "last_possible_lead_out_start_address": BLOB(20, 23),
     "disc_bar_code": BLOB(24, 31), "disc_application_code": (32, 7, 0), "number_of_opc_tables": (33, 7, 0)})
+# MMC-6 6.22.3.2 Track Resources Information Block / 6.22.3.3 POW Resources Information Block
 T(RD + "_tri_bits", {"disc_information_length": W(0, 1), "disc_information_data_type": (2, 7, 5),
-                     "maximum_possible_number_of_the_tracks": None, "number_of_the_assigned_tracks": None,
-                     "maximum_possible_number_of_appendable_tracks": None, "current_number_of_appendable_tracks": None})
-T(RD + "_pow_bits", {"disc_information_length": W(0, 1), "disc_information_data_type": (2, 7, 5), "remaining_pow_replacements": None,
-                     "remaining_pow_reallocation_map_entries": None, "number_of_remaining_pow_updates": None})
+                     "maximum_possible_number_of_the_tracks": W(4, 5), "number_of_the_assigned_tracks": W(6, 7),
+                     "maximum_possible_number_of_appendable_tracks": W(8, 9), "current_number_of_appendable_tracks": W(10, 11)})
+T(RD + "_pow_bits", {"disc_information_length": W(0, 1), "disc_information_data_type": (2, 7, 5), "remaining_pow_replacements": W(4, 7),
+                     "remaining_pow_reallocation_map_entries": W(8, 11), "number_of_remaining_pow_updates": W(12, 15)})
 T(M + "scsi_cdb_readcd:ReadCd._sc2_bits", {k: None for k in ("c", "adr", "track-number", "index-number", "min", "sec", "frame", "zero",
                                                               "amin", "asec", "aframe", "crc", "p")})
 T(M + "scsi_cdb_readcd:ReadCd._sh_bits", {k: None for k in ("minute", "second", "frame", "mode")})
